@@ -302,7 +302,7 @@ def run_case(i, rng, tier):
         return _ed_case(i, rng, tier)
 
     label, sp = C.pick_spec(i, rng, tier)
-    stream = S.gen_stream(rng, sp, rng.randint(0, 10))
+    stream = S.gen_stream(rng, sp, rng.randint(0, 10), {"cat_bool": True})  # boolean categories are legitimate keys
     clone_kind = ("copy", "pickle", "immutable", "rebuild")[i % 4]
     mutated = i % 5 != 0
     failures = []
@@ -421,6 +421,17 @@ def run_case(i, rng, tier):
                     failures.append(C.fail(None, "an aggregator does not equal itself", **wit))
             except Exception as e:  # noqa: BLE001
                 failures.append(C.fail(None, "a == a raised %s" % type(e).__name__, **wit))
+            # a live aggregator against its own immutable form: whether the two count as equal depends on the primitive
+            # (quantities are compared), but the answer must not depend on which one is written on the left
+            if clone_kind != "immutable" and not built:
+                try:
+                    im = a.toImmutable()
+                    r1, r2, n1, n2 = (a == im), (im == a), (a != im), (im != a)
+                    counters["live_vs_immutable_symmetry_checked"] = 1
+                    if r1 != r2 or n1 != n2 or n1 != (not r1):
+                        failures.append(C.fail(None, "live vs immutable form: a == im is %s, im == a is %s, a != im is %s, im != a is %s" % (r1, r2, n1, n2), **wit))
+                except Exception as e:  # noqa: BLE001
+                    failures.append(C.fail(None, "comparing an aggregator with its immutable form raised %s: %s" % (type(e).__name__, str(e)[:120]), **wit))
         # node by node: != is the negation of == wherever two corresponding nodes are compared directly
         if not failures:
             na_, nb_ = dict(real_nodes(a)), dict(real_nodes(b))
@@ -474,7 +485,7 @@ def run_case(i, rng, tier):
 
 def conclusive(agg):
     out = []
-    for c in ("clone:copy", "clone:pickle", "clone:immutable", "clone:rebuild", "built:stack", "built:fraction", "equal_pairs", "unequal_pairs", "comparisons:tolerance", "nodewise_negation_checked", "ed_built_comparisons"):
+    for c in ("clone:copy", "clone:pickle", "clone:immutable", "clone:rebuild", "built:stack", "built:fraction", "equal_pairs", "unequal_pairs", "comparisons:tolerance", "nodewise_negation_checked", "ed_built_comparisons", "live_vs_immutable_symmetry_checked"):
         if not agg.counters.get(c):
             out.append("never exercised: " + c)
     miss = [k for k in S.ALL_KINDS if k not in agg.sets.get("kinds", ())]
